@@ -97,7 +97,11 @@ class SheetGen:
             cond["value"] = g
             return cond
         if t == "split_random":
-            cond["value"] = rng.choice(["A", "B", "C", "D"])
+            # buckets called by letters, or by NUMBERS (a bucket's number is just its name: buckets are listed in
+            # the order in which they are first mentioned, and a bucket mentioned again keeps its place)
+            if "buckets" not in src:
+                src["buckets"] = rng.choice([["A", "B", "C", "D"], ["A", "B", "C", "D"], ["1", "2", "3", "4"], ["2", "1", "3"], ["1", "2", "10"]])
+            cond["value"] = rng.choice(src["buckets"])
             return cond
         if t == "start_new_flow":
             cond["value"] = rng.choice(["completed", "Completed", "complete", "expired", "Expired"])
